@@ -70,7 +70,7 @@ claim("C16", "TLC trace validation of the bytes written/read by the real XYZ/SDF
       "1-3 atom molecules over a coordinate alphabet covering the format's range. Real molecules (1-200 atoms, every Z in 1..103, with/without perceived bonds, "
       "bond indices >= 100, 1-4 records per file, save/load and string routes, the repository's SDF file) are written by the library; TLC checks the V2000 columns "
       "of every line on the actual bytes, parses the text with the spec's own reader and compares with both the original molecule and the library's reader; XYZ "
-      "spellings certified by the spec's grammar are parsed by the real reader. Molecules carry title comments (empty, blank, text) and spec-written multi-record files are also stored with CRLF line ends. XYZ files carry further per-atom columns; SDF readers are used with the limit keyword; written molecules carry titles. Beyond the listed statement (EXTENSION-NOTE only): Trace_Mol2File holds molecules read from .mol2 files whose MOLECULE/ATOM/BOND records the specification itself writes (Mol2File!Mol2Text): elements from SYBYL atom types, labels, coordinates, bonded pairs for every bond type; Smiles.tla specifies the SMILES reader as a token machine (MC_Smiles: every token string up to depth 7/9, invariants on bonds, registers, bond count and connectedness; the well-formed strings TLC prints plus longer generated ones are read by chmpy.fmt.smiles.parse and judged by Trace_Smiles).",
+      "spellings certified by the spec's grammar are parsed by the real reader. Molecules carry title comments (empty, blank, text) and spec-written multi-record files are also stored with CRLF line ends. XYZ files carry further per-atom columns; SDF readers are used with the limit keyword; written molecules carry titles. Beyond the listed statement (EXTENSION-NOTE only): Trace_Mol2File holds molecules read from .mol2 files whose MOLECULE/ATOM/BOND records the specification itself writes (Mol2File!Mol2Text): elements from SYBYL atom types, labels, coordinates, bonded pairs for every bond type; Smiles.tla specifies the SMILES reader as a token machine (MC_Smiles: every token string up to depth 7/9, invariants on bonds, registers, bond count and connectedness; the well-formed strings TLC prints plus longer generated ones are read by chmpy.fmt.smiles.parse and judged by Trace_Smiles); CubeFile.tla writes cube files and specifies the CubeData object (MC_Cube: histories of origin shifts keep every atom in place relative to the grid; Trace_Cube steps through such histories on the real object).",
       "Coordinates are decimals built from integers (one digit group finer than the format is accepted either way); float noise allowance 1e-8 only above 8192 for XYZ.")
 claim("C05", "TLC trace validation of rho/weights against the exported interpolation table + MC of the evaluation-context state machine",
       "Promolecule.tla specifies table lookup, linear interpolation, per-atom and per-set density, the kernel's accumulation loop and the stockholder weight as exact "
